@@ -274,9 +274,7 @@ func ruleReaderWindow(c *Ctx, r *Report, prefix string) {
 				if call, ok := callTo(ins, ndd); ok {
 					if x, y, isMax := phiIsMax(call.Call.Args[0]); isMax {
 						// one side is the header's (clamped) dictCap, the other the configured DictCap
-						hx := isFieldLoadOf(x, fHDC)
-						cy := isDictCapParamField(y, fn)
-						if hx && cy {
+						if (isFieldLoadOf(x, fHDC) && isDictCapParamField(y, fn)) || (isFieldLoadOf(y, fHDC) && isDictCapParamField(x, fn)) {
 							okMax = true
 						}
 					}
